@@ -223,7 +223,7 @@ def run_driver(ctx, drv, args, what):
             frames = [l.strip() for l in out[out.find("goroutine"):].splitlines()
                       if l and not l.startswith(("\t", " ", "goroutine", "panic(", "runtime.", "created by"))]
             if frames and "idena-network/idena-go/" in frames[0] and "verifclock" not in frames[0]:
-                fn = frames[0].split("(")[0].split("/")[-1]
+                fn = frames[0].rsplit("(", 1)[0].split("/")[-1]
                 vlib.report_violation(ctx, "C07:panic:" + fn, "the real code panicked while %s: %s" % (what, out[-1200:]))
                 return None
         raise vlib.CheckError("driver failed while %s:\n%s" % (what, out[-3000:]))
@@ -243,13 +243,13 @@ def selftest(ctx, rows):
         if "Complete" not in want and r["acc"] and r["accC"] and clean and len({v["voter"] for v in r["votes"]}) >= r["thr"] - r["sub"]:
             r["accC"] = False            # a clean quorum that the shared-cache call refused
             want["Complete"] = i + 1
-        elif "Sound" not in want and not (r["acc"] or r["accC"] or r["accH"]) and r["thr"] - r["sub"] >= 1:
-            r["acc"] = True              # a certificate without quorum that was accepted
+        elif "Sound" not in want and not (r["acc"] or r["accC"] or r["accH"]) and len(r["votes"]) < r["thr"] - r["sub"]:
+            r["acc"] = True              # fewer signatures than required votes, yet accepted
             want["Sound"] = i + 1
         elif "Eligibility" not in want and len(r["comm"]["p"]) >= 2:
             r["comm"]["p"] = r["comm"]["p"][1:]     # an approved member went missing
             want["Eligibility"] = i + 1
-        elif "Required" not in want and i > 50:
+        elif "Required" not in want and i > 50 and r["cnt"] <= 8:   # the table: no rounding tie that would admit thr + 1
             r["thr"] += 1
             want["Required"] = i + 1
         if len(want) == 4:
